@@ -174,6 +174,16 @@ func (win Window) Print(segs ...Segment) (col int, row int) {
 				Character: char,
 				Style:     seg.Style,
 			}
+			if char.Width > cols {
+				// wider than the window, it can't be shown at all
+				continue
+			}
+			if col+char.Width > cols {
+				// the row can't hold this character, it would be
+				// drawn over the edge of the window
+				row += 1
+				col = 0
+			}
 			win.SetCell(col, row, cell)
 			col += char.Width
 			if col >= cols {
@@ -300,6 +310,16 @@ func (win Window) Wrap(segs ...Segment) (col int, row int) {
 				cell := Cell{
 					Character: char,
 					Style:     seg.Style,
+				}
+				if char.Width > cols {
+					// wider than the window, it can't be shown at all
+					continue
+				}
+				if col+char.Width > cols {
+					// the row can't hold this character, it would
+					// be drawn over the edge of the window
+					row += 1
+					col = 0
 				}
 				win.SetCell(col, row, cell)
 				col += char.Width
